@@ -76,6 +76,12 @@ def scan_fn(ctx):
     import copy as _copy
     from engine.inliner import scalarise_tuple_records, propagate_tail_copies
     f = ctx.fn(SCAN)
+    from engine.inliner import record_locals_as_tuples
+    rnode, rdone = record_locals_as_tuples(ctx.R, f.mod, f.node)
+    if rdone:
+        import copy as _c2
+        f = _c2.copy(f)
+        f.node = rnode
     node, done = scalarise_tuple_records(f.node)
     if done:
         node = propagate_tail_copies(node)
